@@ -5,7 +5,7 @@ import random, re
 
 FRAG = ["select", "from", "where", "case", "when", "then", "else", "end", "if", "end if", "for", "end loop", "begin",
         "(", ")", "[", "]", ",", ";", ".", "::", ":=", "*", "+", "-", "=", "<", ">", "as", "a", "b", "t1", "x.y", "'s'",
-        "'it''s'", "\"q\"", "`b`", "$$", "$a$", "--c\n", "/*c*/", "/*+h*/", " ", "  ", "\n", "\t", "\r\n", "1", "1.5",
+        "'it''s'", "\"q\"", "`b`", "$$", "$a$", "--c\n", "/*c*/", "/*+h*/", " ", "  ", "\n", "\t", "\r\n", "\r", "\n\n", "1", "1.5",
         "1e5", "0x1F", "order by", "group by", "union all", "union", "and", "or", "between", "like", "not null", "null",
         "in", "values", "insert", "into", "update", "set", "delete", "create", "or replace", "table", "function",
         "declare", "while", "loop", "end while", "over", "partition by", "join", "left join", "on", "using", "having",
@@ -42,7 +42,7 @@ def g2(rng, maxfrag=25):
         if r < 0.85:
             out.append(rng.choice(FRAG))
         elif r < 0.95:
-            out.append(rng.choice(" \n\t"))
+            out.append(rng.choice(" \n\t\r"))
         else:
             out.append(chr(rand_cp(rng)))
         if rng.random() < 0.6:
@@ -126,3 +126,22 @@ ASSIGN_VOCAB = ['@a', '@b', 'x', 'y', ':=', ':=', ':=', '1', '2', ';', ';', ',',
 
 def gassign(rng, maxlen=12):
     return ' '.join(rng.choice(ASSIGN_VOCAB) for _ in range(rng.randint(2, maxlen)))
+
+
+# --- plain scripts with semicolons in every place where they must NOT split (C05) -------------------------------------------
+def gplain(rng, maxstmts=4):
+    """k plain statements; parentheses may contain bare semicolons, CASE … END is balanced inside a statement, literals/comments hold `;`"""
+    def item(d):
+        r = rng.random()
+        if r < 0.35 or d > 2:
+            return rng.choice(['a', 'b1', 'select', 'from', 't', 'where', 'x = 1', ',', 'and', 'coalesce', 'values', 'f', '1', "'s;'", '"q;"', '/* c; */', '`b;q`', '$$ a; $$'])
+        if r < 0.6:
+            inner = ' '.join(item(d + 1) for _ in range(rng.randint(0, 3)))
+            if rng.random() < 0.5:
+                inner += rng.choice(['; ', ' ;', ';']) + ' '.join(item(d + 1) for _ in range(rng.randint(0, 2)))
+            return '(' + inner + ')'
+        if r < 0.8:
+            return 'case when ' + item(d + 1) + ' then ' + item(d + 1) + (' else ' + item(d + 1) if rng.random() < 0.5 else '') + ' end'
+        return rng.choice(['-- c;\n', 'x', 'y.z'])
+    stmts = [' '.join(item(0) for _ in range(rng.randint(1, 5))) for _ in range(rng.randint(1, maxstmts))]
+    return rng.choice(['; ', ';\n', ' ;  ', ';']).join(stmts) + rng.choice(['', ';', ' ; '])
